@@ -66,7 +66,7 @@ def run(chk: lib.Check):
     quick = chk.tier == "quick"
     stats = collections.Counter()
     cases, descs = [], []
-    n_targets = 40 if quick else 600
+    n_targets = 100 if quick else 800
     per_model_reload = 8
     specs = corpus.model_specs(chk.tier)[: (1 if quick else 3)]
     for spec0 in specs:
@@ -172,6 +172,8 @@ def run(chk: lib.Check):
                         refs.append([A.S(k), (h, k) in exposed_attr, [A.S(tk) for tk in toks]])
                         watched.add(h)
                 lk = link_elems.get(h)
+                if lk is not None and ph is not None:
+                    watched.add(ph)
                 eid = attrib.get("id")
                 els.append([h, ph, [A.S(eid)] if eid else [], refs, None if lk is None else A.S(lk)])
             # ---- the deletion, through one of the entry points
@@ -202,8 +204,8 @@ def run(chk: lib.Check):
                                   {"model": spec0["name"], "target": tid, "entry": entry, "error": outcome})
                     model = None
                 elif not refusing:
-                    chk.violation(f"refused-without-reason:{outcome}", f"deleting {desc} raised {outcome} although no relation that refuses purging references it",
-                                  {"model": spec0["name"], "target": tid, "entry": entry, "error": outcome})
+                    # raising without changing anything is within the property ("or raises and leaves the model unchanged")
+                    stats[f"raised-unchanged:{entry}:{outcome}"] += 1
                 else:
                     stats["refused-by-physical-link-end"] += 1
                 continue
@@ -252,6 +254,16 @@ def run(chk: lib.Check):
                                 reach = True
                     except Exception:  # noqa: BLE001
                         pass
+                    if not reach and e.getparent() is not None:
+                        # a link element: some LinkAccessor of the parent's class stores references in <tag follow=...>
+                        try:
+                            po = _obj.ModelElement.from_model(model, e.getparent())
+                            for an in dir(type(po)):
+                                a = getattr(type(po), an, None)
+                                if isinstance(a, D.LinkAccessor) and a.tag == tag and a.follow == k and A.xtype_of(e) in a.xtypes:
+                                    reach = True
+                        except Exception:  # noqa: BLE001
+                            pass
                     if reach:
                         chk.violation(f"dangling-exposed:{tag}:{k}", f"after deleting {desc}, <{tag} {k}=...> still references deleted id {hit[0]}",
                                       {"model": spec0["name"], "target": tid, "entry": entry, "element": attrib.get("id"), "attr": k})
